@@ -68,10 +68,49 @@ let tagsq_mode line =
      let sts = List.map (fun i -> stamps.(i)) idxs in
      if violation_suppressed sts (str_of_ints rule) then "1" else "0") (split_lines qs))
 
+(* scheduler: "allp fix_phase -1 skip.. -1 rid phase sub disabled fixable error prereq nviol -1 ..." *)
+let bool_of_int i = i <> 0
+let sched_mode line =
+  match split_lines (ints line) with
+  | [allp; fixp] :: skip :: rs ->
+    let rules = List.map (function
+      | [rid; ph; sb; dis; fx; er; pr; _] ->
+        { rid = nat_of_int rid; rphase = nat_of_int ph; rsub = nat_of_int sb; rdisabled = bool_of_int dis;
+          rfixable = bool_of_int fx; rerror = bool_of_int er; rprereq = bool_of_int pr }
+      | _ -> failwith "bad rule") rs in
+    let nv = Hashtbl.create 64 in
+    List.iter (function [rid; _; _; _; _; _; _; n] -> Hashtbl.replace nv rid n | _ -> ()) rs;
+    let nviol r = nat_of_int (try Hashtbl.find nv (int_of_nat r.rid) with Not_found -> 0) in
+    let skipn = List.map nat_of_int skip in
+    let c = check_rules nviol rules (bool_of_int allp) skipn in
+    let a = String.concat " " (List.map (fun r -> string_of_int (int_of_nat r.rid)) c.analysed) in
+    let evs = fix_events rules (nat_of_int fixp) skipn in
+    let e = String.concat " " (List.map (function
+      | EFix r -> "F" ^ string_of_int (int_of_nat r.rid)
+      | EAnalyze r -> "A" ^ string_of_int (int_of_nat r.rid)
+      | EIndent -> "I" | ENormalise -> "N") evs) in
+    Printf.sprintf "%s | %d | %d || %s" a (int_of_nat c.lastp) (if c.flag then 1 else 0) e
+  | _ -> failwith "bad sched input"
+
+(* fix_only: "hasdict fixable rid -1 lines.. -1 (rid sel sel ... -1)*"  sel: -5 = all, n = line *)
+let fixonly_mode line =
+  match split_lines (ints line) with
+  | [hasd; fx; rid] :: lines :: entries ->
+    let m = List.map (function
+      | k :: sels -> (nat_of_int k, List.map (fun s -> if s = -5 then SAll else SLine (nat_of_int s)) sels)
+      | [] -> failwith "bad entry") entries in
+    let d = if hasd <> 0 then Some m else None in
+    let r = { rid = nat_of_int rid; rphase = O; rsub = O; rdisabled = false; rfixable = bool_of_int fx; rerror = true; rprereq = false } in
+    let kept = fixed_violations (fun (v : int) -> nat_of_int v) d r lines in
+    String.concat " " (List.map string_of_int kept)
+  | _ -> failwith "bad fixonly input"
+
 let () =
   let mode = if Array.length Sys.argv > 1 then Sys.argv.(1) else "tokenizer" in
   let f = match mode with
     | "tokenizer" -> tokenizer
+    | "sched" -> sched_mode
+    | "fixonly" -> fixonly_mode
     | "tags" -> tags_mode
     | "tagsq" -> tagsq_mode
     | "read" -> read_mode
